@@ -134,14 +134,14 @@ theorem partitionColon_line {k v : Str} (h : ':' ∉ k) :
   simp
 
 /-- `_parse_headers` on the block of the encoder's header lines gives the headers back -/
-theorem parseHeaders_block (hs : Headers) (hok : ∀ kv ∈ hs, HeaderOk kv) :
-    parseHeaders (joinCrlf (hs.map lineOf)) = .ok hs := by
+theorem parseHeaders_block (nl : Nl) (hs : Headers) (hok : ∀ kv ∈ hs, HeaderOk kv) :
+    parseHeaders (joinNl nl (hs.map lineOf)) = .ok hs := by
   have hlines : ∀ l ∈ hs.map lineOf, LineOk l := by
     intro l hl
     rcases List.mem_map.1 hl with ⟨kv, hkv, rfl⟩
     exact lineOk_of_headerOk (hok kv hkv)
   unfold parseHeaders
-  rw [fold_block _ hlines, split_block _ hlines, strip_filter_block _ hlines]
+  rw [fold_block nl _ hlines, split_block nl _ hlines, strip_filter_block _ hlines]
   simp only
   induction hs with
   | nil => rfl
@@ -164,8 +164,9 @@ def cdHeader (n : Str) (f : Option Str) : Str × Str := (kCD, FormOptions.dispos
 
 /-- a part the encoder can write and the decoder reads back (decidable): a name, names free of
 `"`, `\`, `%22`, CR, LF; `isFile` iff there is a filename; extra headers that survive a header
-line and are not Content-Disposition; a payload none of whose lines starts with `--boundary` -/
-def ValidPart (bnd : Bytes) (p : Part) : Prop :=
+line and are not Content-Disposition; a payload none of whose lines starts with `--boundary` and which is free of the other newline kind
+(`nl` is the line break the body uses: CRLF as the encoder writes it, or bare LF / bare CR) -/
+def ValidPart (nl : Nl) (bnd : Bytes) (p : Part) : Prop :=
   match p.name with
   | none => False
   | some n =>
@@ -175,9 +176,9 @@ def ValidPart (bnd : Bytes) (p : Part) : Prop :=
      | some f => FormOptions.NameOk f ∧ NoNlChars f) ∧
     p.isFile = p.filename.isSome ∧
     (∀ kv ∈ p.headers, HeaderOk kv ∧ lowerAscii kv.1 ≠ "content-disposition".toList) ∧
-    PayloadOk bnd p.payload
+    PayloadOkNl nl bnd p.payload
 
-instance (bnd : Bytes) (p : Part) : Decidable (ValidPart bnd p) := by
+instance (nl : Nl) (bnd : Bytes) (p : Part) : Decidable (ValidPart nl bnd p) := by
   unfold ValidPart
   cases p.name with
   | none => exact isFalse (fun h => h)
@@ -186,22 +187,25 @@ instance (bnd : Bytes) (p : Part) : Decidable (ValidPart bnd p) := by
     | none => simp only; infer_instance
     | some f => simp only; infer_instance
 
-/-- the header block of a part as bytes (lines joined by CRLF) -/
-def hdrBlock (n : Str) (p : Part) : Bytes := joinCrlf ((cdHeader n p.filename :: p.headers).map lineOf)
+/-- the header block of a part as bytes (lines joined by the line break) -/
+def hdrBlock (nl : Nl) (n : Str) (p : Part) : Bytes :=
+  joinNl nl ((cdHeader n p.filename :: p.headers).map lineOf)
 
-/-- what the encoder writes for one part -/
-def encPart (bnd : Bytes) (n : Str) (p : Part) : Bytes :=
-  13 :: 10 :: (delim bnd ++ 13 :: 10 :: (hdrBlock n p ++ 13 :: 10 ::
-    (if p.payload.isEmpty then [] else 13 :: 10 :: p.payload)))
+/-- the body line break and the payload (nothing at all for an empty payload) -/
+def framedNl (nl : Nl) (payload : Bytes) : Bytes := if payload.isEmpty then [] else nl.bytes ++ payload
+
+/-- one part on the wire (`nl = .crlf`: what the encoder writes) -/
+def encPart (nl : Nl) (bnd : Bytes) (n : Str) (p : Part) : Bytes :=
+  nl.bytes ++ (delim bnd ++ (nl.bytes ++ (hdrBlock nl n p ++ (nl.bytes ++ framedNl nl p.payload))))
 
 theorem joinCrlf_flatten (l0 : Bytes) (ls : List Bytes) :
-    l0 ++ crlf ++ (ls.map fun l => l ++ crlf).flatten = joinCrlf (l0 :: ls) ++ crlf := by
+    l0 ++ crlf ++ (ls.map fun l => l ++ crlf).flatten = joinNl .crlf (l0 :: ls) ++ crlf := by
   induction ls generalizing l0 with
-  | nil => simp [joinCrlf]
+  | nil => simp [joinNl]
   | cons l t ih =>
-    simp only [List.map_cons, List.flatten_cons, joinCrlf_cons_cons]
+    simp only [List.map_cons, List.flatten_cons, joinNl_cons_cons]
     rw [ih l]
-    simp [crlf]
+    simp [crlf, Nl.bytes]
 
 theorem str_cd_name : str "Content-Disposition: form-data; name=\"" =
     utf8Enc (kCD ++ ':' :: ' ' :: (FormOptions.kFormData ++ ';' :: ' ' :: (FormOptions.kName ++ ['=', '"']))) := by
@@ -245,7 +249,7 @@ theorem sendEvent_part {bnd : Bytes} {p : Part} {n : Str} {st : State} (hst : st
     (hn : p.name = some n)
     (hh : ∀ kv ∈ p.headers, HeaderOk kv ∧ lowerAscii kv.1 ≠ "content-disposition".toList) :
     sendEvent bnd st (partHeadEvent p) =
-      .ok (13 :: 10 :: (delim bnd ++ 13 :: 10 :: (hdrBlock n p ++ [13, 10])), .dataStart) := by
+      .ok (13 :: 10 :: (delim bnd ++ 13 :: 10 :: (hdrBlock .crlf n p ++ [13, 10])), .dataStart) := by
   have hstb : (st == .preamble || st == .part || st == .data) = true := by
     rcases hst with h | h <;> subst h <;> rfl
   have hline := cd_line n p.filename
@@ -266,7 +270,7 @@ theorem sendEvent_part {bnd : Bytes} {p : Part} {n : Str} {st : State} (hst : st
     rw [e _ _ []]
     have hj : lineOf (cdHeader n none) ++ crlf ++
         (p.headers.map fun (kv : Str × Str) => utf8Enc (kv.1 ++ ':' :: ' ' :: kv.2) ++ crlf).flatten =
-        joinCrlf (lineOf (cdHeader n none) :: p.headers.map lineOf) ++ crlf := by
+        joinNl .crlf (lineOf (cdHeader n none) :: p.headers.map lineOf) ++ crlf := by
       have := hjoin
       simpa [Function.comp_def, lineOf] using this
     rw [hj]; rfl
@@ -286,7 +290,7 @@ theorem sendEvent_part {bnd : Bytes} {p : Part} {n : Str} {st : State} (hst : st
     rw [e _ _ []]
     have hj : lineOf (cdHeader n (some f)) ++ crlf ++
         (p.headers.map fun (kv : Str × Str) => utf8Enc (kv.1 ++ ':' :: ' ' :: kv.2) ++ crlf).flatten =
-        joinCrlf (lineOf (cdHeader n (some f)) :: p.headers.map lineOf) ++ crlf := by
+        joinNl .crlf (lineOf (cdHeader n (some f)) :: p.headers.map lineOf) ++ crlf := by
       have := hjoin
       simpa [Function.comp_def, lineOf] using this
     rw [hj]; rfl
@@ -295,11 +299,11 @@ theorem sendEvent_part {bnd : Bytes} {p : Part} {n : Str} {st : State} (hst : st
 
 def nameOf (p : Part) : Str := p.name.getD []
 
-variable {ep : Bytes}
+variable {nl : Nl} {ep : Bytes}
 
 /-- the closing delimiter followed by whatever comes after `--boundary--` (`ep`; the encoder writes
 CRLF, a client may add an epilogue or omit the line break) -/
-def closing (bnd ep : Bytes) : Bytes := 13 :: 10 :: (delim bnd ++ 45 :: 45 :: ep)
+def closing (nl : Nl) (bnd ep : Bytes) : Bytes := nl.bytes ++ (delim bnd ++ 45 :: 45 :: ep)
 
 /-- what is left of `ep` once the closing delimiter (with its padding and line break) is consumed -/
 def epiOf (ep : Bytes) : Bytes := ep.drop ((ep.takeWhile isHws).length + lbLen (ep.dropWhile isHws))
@@ -308,22 +312,22 @@ def epiOf (ep : Bytes) : Bytes := ep.drop ((ep.takeWhile isHws).length + lbLen (
 def stdEp : Bytes := [13, 10]
 
 /-- the body `encodeAll` produces -/
-def encBody (bnd ep : Bytes) : List Part → Bytes
-  | [] => closing bnd ep
-  | p :: ps => encPart bnd (nameOf p) p ++ encBody bnd ep ps
+def encBody (nl : Nl) (bnd ep : Bytes) : List Part → Bytes
+  | [] => closing nl bnd ep
+  | p :: ps => encPart nl bnd (nameOf p) p ++ encBody nl bnd ep ps
 
-theorem validPart_name {bnd : Bytes} {p : Part} (h : ValidPart bnd p) : p.name = some (nameOf p) := by
+theorem validPart_name {bnd : Bytes} {p : Part} (h : ValidPart nl bnd p) : p.name = some (nameOf p) := by
   unfold ValidPart at h
   cases hn : p.name with
   | none => rw [hn] at h; exact absurd h (by simp)
   | some n => simp [nameOf, hn]
 
-theorem validPart_facts {bnd : Bytes} {p : Part} (h : ValidPart bnd p) :
+theorem validPart_facts {bnd : Bytes} {p : Part} (h : ValidPart nl bnd p) :
     FormOptions.NameOk (nameOf p) ∧ NoNlChars (nameOf p) ∧
     (∀ f, p.filename = some f → FormOptions.NameOk f ∧ NoNlChars f) ∧
     p.isFile = p.filename.isSome ∧
     (∀ kv ∈ p.headers, HeaderOk kv ∧ lowerAscii kv.1 ≠ "content-disposition".toList) ∧
-    PayloadOk bnd p.payload := by
+    PayloadOkNl nl bnd p.payload := by
   have hn := validPart_name h
   unfold ValidPart at h
   rw [hn] at h
@@ -386,33 +390,32 @@ theorem encodeEvents_data_start {bnd : Bytes} (pieces : List Bytes) (last : Byte
       simp [framed, crlf]
 
 theorem encodeEvents_part_chunked {bnd : Bytes} {p : Part} {st : State} (hst : st = .part ∨ st = .data)
-    (hv : ValidPart bnd p) (pieces : List Bytes) (last : Bytes) (hp : pieces.flatten ++ last = p.payload)
+    (hv : ValidPart .crlf bnd p) (pieces : List Bytes) (last : Bytes) (hp : pieces.flatten ++ last = p.payload)
     (rest : List Event) {out : Bytes} (hrest : encodeEvents bnd .data rest = .ok out) :
     encodeEvents bnd st (partHeadEvent p :: (dataEvents pieces last ++ rest)) =
-      .ok (encPart bnd (nameOf p) p ++ out) := by
+      .ok (encPart .crlf bnd (nameOf p) p ++ out) := by
   have hs := sendEvent_part (bnd := bnd) hst (validPart_name hv) (validPart_facts hv).2.2.2.2.1
   simp only [encodeEvents, hs]
   rw [encodeEvents_data_start pieces last rest hrest, hp]
   simp only
   congr 1
-  unfold encPart framed
-  simp
+  simp [encPart, framedNl, framed, Nl.bytes]
 
 theorem encodeEvents_part {bnd : Bytes} {p : Part} {st : State} (hst : st = .part ∨ st = .data)
-    (hv : ValidPart bnd p) (rest : List Event) {out : Bytes}
+    (hv : ValidPart .crlf bnd p) (rest : List Event) {out : Bytes}
     (hrest : encodeEvents bnd .data rest = .ok out) :
-    encodeEvents bnd st (partEvents p ++ rest) = .ok (encPart bnd (nameOf p) p ++ out) := by
+    encodeEvents bnd st (partEvents p ++ rest) = .ok (encPart .crlf bnd (nameOf p) p ++ out) := by
   have := encodeEvents_part_chunked hst hv [] p.payload (by simp) rest hrest
   simpa [partEvents, dataEvents] using this
 
-theorem encodeEvents_parts {bnd : Bytes} (ps : List Part) (hv : ∀ p ∈ ps, ValidPart bnd p) :
+theorem encodeEvents_parts {bnd : Bytes} (ps : List Part) (hv : ∀ p ∈ ps, ValidPart .crlf bnd p) :
     ∀ st, st = .part ∨ st = .data →
-    encodeEvents bnd st (ps.flatMap partEvents ++ [.epilogue []]) = .ok (encBody bnd stdEp ps) := by
+    encodeEvents bnd st (ps.flatMap partEvents ++ [.epilogue []]) = .ok (encBody .crlf bnd stdEp ps) := by
   induction ps with
   | nil =>
     intro st hst
     rcases hst with h | h <;> subst h <;>
-      simp [encodeEvents, sendEvent, encBody, closing, crlf, delim, stdEp]
+      simp [encodeEvents, sendEvent, encBody, closing, crlf, delim, stdEp, Nl.bytes]
   | cons p ps ih =>
     intro st hst
     have := ih (fun q hq => hv q (by simp [hq])) .data (Or.inr rfl)
@@ -427,14 +430,14 @@ abbrev ChunkedPart := Part × List Bytes × Bytes
 def chunkedEvents (c : ChunkedPart) : List Event := partHeadEvent c.1 :: dataEvents c.2.1 c.2.2
 
 theorem encodeEvents_chunked_parts {bnd : Bytes} (cs : List ChunkedPart)
-    (hv : ∀ c ∈ cs, ValidPart bnd c.1 ∧ c.2.1.flatten ++ c.2.2 = c.1.payload) :
+    (hv : ∀ c ∈ cs, ValidPart .crlf bnd c.1 ∧ c.2.1.flatten ++ c.2.2 = c.1.payload) :
     ∀ st, st = .part ∨ st = .data →
-    encodeEvents bnd st (cs.flatMap chunkedEvents ++ [.epilogue []]) = .ok (encBody bnd stdEp (cs.map (·.1))) := by
+    encodeEvents bnd st (cs.flatMap chunkedEvents ++ [.epilogue []]) = .ok (encBody .crlf bnd stdEp (cs.map (·.1))) := by
   induction cs with
   | nil =>
     intro st hst
     rcases hst with h | h <;> subst h <;>
-      simp [encodeEvents, sendEvent, encBody, closing, crlf, delim, stdEp]
+      simp [encodeEvents, sendEvent, encBody, closing, crlf, delim, stdEp, Nl.bytes]
   | cons c cs ih =>
     intro st hst
     have := ih (fun q hq => hv q (by simp [hq])) .data (Or.inr rfl)
@@ -447,17 +450,17 @@ theorem encodeEvents_chunked_parts {bnd : Bytes} (cs : List ChunkedPart)
 Field/File event and any number of Data events (`more_data` on all but the last, empty chunks
 anywhere), `Epilogue(b"")` — encodes to the same bytes as one Data event per part -/
 theorem encodeEvents_chunked {bnd : Bytes} (cs : List ChunkedPart)
-    (hv : ∀ c ∈ cs, ValidPart bnd c.1 ∧ c.2.1.flatten ++ c.2.2 = c.1.payload) :
+    (hv : ∀ c ∈ cs, ValidPart .crlf bnd c.1 ∧ c.2.1.flatten ++ c.2.2 = c.1.payload) :
     encodeEvents bnd .preamble (.preamble [] :: (cs.flatMap chunkedEvents ++ [.epilogue []])) =
-      .ok (encBody bnd stdEp (cs.map (·.1))) := by
+      .ok (encBody .crlf bnd stdEp (cs.map (·.1))) := by
   simp only [encodeEvents, sendEvent]
   simp only [beq_self_eq_true, if_true]
   rw [encodeEvents_chunked_parts cs hv .part (Or.inl rfl)]
   simp
 
 /-- **what `encodeAll` writes** -/
-theorem encodeAll_eq {bnd : Bytes} (ps : List Part) (hv : ∀ p ∈ ps, ValidPart bnd p) :
-    encodeAll bnd ps = .ok (encBody bnd stdEp ps) := by
+theorem encodeAll_eq {bnd : Bytes} (ps : List Part) (hv : ∀ p ∈ ps, ValidPart .crlf bnd p) :
+    encodeAll bnd ps = .ok (encBody .crlf bnd stdEp ps) := by
   unfold encodeAll
   simp only [encodeEvents, sendEvent]
   simp only [beq_self_eq_true, if_true]
@@ -471,23 +474,25 @@ def mkD (bnd buf : Bytes) (st : State) (k : Nat) : Decoder :=
   { boundary := bnd, buffer := buf, state := st, complete := false, searchPos := 0, partsDecoded := k,
     maxMem := none, maxParts := none }
 
-/-- what follows `CRLF--boundary` in the encoder output for the remaining parts -/
-def tailOf (bnd ep : Bytes) : List Part → Bytes
+/-- the buffer after the line break that ends the last header line of part `p` -/
+def dataOf (nl : Nl) (bnd ep : Bytes) (p : Part) (ps : List Part) : Bytes :=
+  framedNl nl p.payload ++ encBody nl bnd ep ps
+
+/-- what follows `NL--boundary` in the body for the remaining parts -/
+def tailOf (nl : Nl) (bnd ep : Bytes) : List Part → Bytes
   | [] => 45 :: 45 :: ep
-  | p :: ps => 13 :: 10 :: (hdrBlock (nameOf p) p ++ 13 :: 10 ::
-      ((if p.payload.isEmpty then [] else 13 :: 10 :: p.payload) ++ encBody bnd ep ps))
+  | p :: ps => nl.bytes ++ (hdrBlock nl (nameOf p) p ++ (nl.bytes ++ dataOf nl bnd ep p ps))
 
 /-- the buffer once that delimiter has been consumed -/
-def afterOf (bnd ep : Bytes) : List Part → Bytes
+def afterOf (nl : Nl) (bnd ep : Bytes) : List Part → Bytes
   | [] => epiOf ep
-  | p :: ps => hdrBlock (nameOf p) p ++ 13 :: 10 ::
-      ((if p.payload.isEmpty then [] else 13 :: 10 :: p.payload) ++ encBody bnd ep ps)
+  | p :: ps => hdrBlock nl (nameOf p) p ++ (nl.bytes ++ dataOf nl bnd ep p ps)
 
 theorem encBody_eq (bnd : Bytes) (ps : List Part) :
-    encBody bnd ep ps = 13 :: 10 :: (delim bnd ++ tailOf bnd ep ps) := by
+    encBody nl bnd ep ps = nl.bytes ++ (delim bnd ++ tailOf nl bnd ep ps) := by
   cases ps with
   | nil => rfl
-  | cons p ps => simp [encBody, encPart, tailOf]
+  | cons p ps => simp [encBody, encPart, tailOf, dataOf]
 
 theorem lineOf_cd_head (n : Str) (f : Option Str) : ∃ r, lineOf (cdHeader n f) = 67 :: r := by
   unfold lineOf cdHeader kCD
@@ -497,43 +502,46 @@ theorem lineOf_cd_head (n : Str) (f : Option Str) : ∃ r, lineOf (cdHeader n f)
   rw [this, utf8Enc_cons]
   exact ⟨_, by rw [utf8EncodeChar_ascii 'C' (by decide)]; rfl⟩
 
-theorem hdrBlock_head (n : Str) (p : Part) : ∃ r, hdrBlock n p = 67 :: r := by
+theorem hdrBlock_head (nl : Nl) (n : Str) (p : Part) : ∃ r, hdrBlock nl n p = 67 :: r := by
   rcases lineOf_cd_head n p.filename with ⟨r, hr⟩
   unfold hdrBlock
   simp only [List.map_cons]
   cases p.headers.map lineOf with
-  | nil => exact ⟨r, by simp [joinCrlf, hr]⟩
-  | cons l t => exact ⟨r ++ 13 :: 10 :: joinCrlf (l :: t), by simp [joinCrlf_cons_cons, hr]⟩
+  | nil => exact ⟨r, by simp [joinNl, hr]⟩
+  | cons l t => exact ⟨r ++ (nl.bytes ++ joinNl nl (l :: t)), by simp [joinNl_cons_cons, hr]⟩
 
 theorem afterDelim_tailOf (bnd : Bytes) (ps : List Part) :
-    AfterDelim (tailOf bnd ep ps) ps.isEmpty (afterOf bnd ep ps) := by
+    AfterDelimNl nl (tailOf nl bnd ep ps) ps.isEmpty (afterOf nl bnd ep ps) := by
   cases ps with
-  | nil => exact AfterDelim.closing ep
+  | nil => exact Or.inl ⟨rfl, ep, rfl, rfl⟩
   | cons p ps =>
-    rcases hdrBlock_head (nameOf p) p with ⟨r, hr⟩
-    simp only [tailOf, afterOf, hr, List.isEmpty_cons, List.cons_append]
-    exact AfterDelim.next 67 _ (by decide)
+    rcases hdrBlock_head nl (nameOf p) p with ⟨r, hr⟩
+    refine Or.inr ⟨rfl, 67, r ++ (nl.bytes ++ dataOf nl bnd ep p ps), by decide, ?_, ?_⟩
+    · simp only [tailOf, hr, List.cons_append]
+    · simp only [afterOf, hr, List.cons_append]
 
 /-- PREAMBLE: the first delimiter is at offset 0 -/
 theorem step_preamble (bnd : Bytes) (ps : List Part) (k : Nat) :
-    nextEvent (mkD bnd (encBody bnd ep ps) .preamble k) =
-      .ok (.preamble [], mkD bnd (afterOf bnd ep ps) (afterDelim ps.isEmpty) k) := by
-  rcases matchTail_afterDelim (afterDelim_tailOf bnd ps) with ⟨m, hm, hdrop⟩
-  have hmatch : matchDelimAt bnd true (encBody bnd ep ps) = some (2 + (bnd.length + 2) + m, ps.isEmpty) := by
+    nextEvent (mkD bnd (encBody nl bnd ep ps) .preamble k) =
+      .ok (.preamble [], mkD bnd (afterOf nl bnd ep ps) (afterDelim ps.isEmpty) k) := by
+  rcases matchTail_afterDelimNl (afterDelim_tailOf (nl := nl) (ep := ep) bnd ps) with ⟨m, hm, hdrop⟩
+  have hl := nl.lbLen_delim bnd (tailOf nl bnd ep ps)
+  have hmatch : matchDelimAt bnd true (encBody nl bnd ep ps) = some (nl.len + (bnd.length + 2) + m, ps.isEmpty) := by
     rw [encBody_eq]
     apply matchDelimAt_iff'.2
-    exact ⟨tailOf bnd ep ps, m, by simp, by simp [lbLen_crlf], hm, by simp [lbLen_crlf]⟩
-  have hsearch : searchDelimFrom bnd true 0 (encBody bnd ep ps) = some (0, 2 + (bnd.length + 2) + m, ps.isEmpty) := by
+    exact ⟨tailOf nl bnd ep ps, m, by simp, by rw [hl]; simp [Nl.len], hm, by rw [hl]⟩
+  have hsearch : searchDelimFrom bnd true 0 (encBody nl bnd ep ps) = some (0, nl.len + (bnd.length + 2) + m, ps.isEmpty) := by
     rw [searchDelimFrom_eq_shift]
     simp only [List.drop_zero]
     rw [encBody_eq] at hmatch ⊢
+    rcases nl.head_isNl (delim bnd ++ tailOf nl bnd ep ps) with ⟨a, t, he, _⟩
+    rw [he] at hmatch ⊢
     rw [searchDelim_cons_some hmatch]; rfl
-  have hd : (encBody bnd ep ps).drop (2 + (bnd.length + 2) + m) = afterOf bnd ep ps := by
+  have hd : (encBody nl bnd ep ps).drop (nl.len + (bnd.length + 2) + m) = afterOf nl bnd ep ps := by
     rw [encBody_eq]
-    have e : (13 :: 10 :: (delim bnd ++ tailOf bnd ep ps) : Bytes) = [13, 10] ++ (delim bnd ++ tailOf bnd ep ps) := rfl
-    have e2 : 2 + (bnd.length + 2) + m = (m + (delim bnd).length) + ([13, 10] : Bytes).length := by
-      simp [delim]; omega
-    rw [e, e2, drop_add_append, drop_add_append, hdrop]
+    have e2 : nl.len + (bnd.length + 2) + m = (m + (delim bnd).length) + nl.bytes.length := by
+      simp [delim, Nl.len]; omega
+    rw [e2, drop_add_append, drop_add_append, hdrop]
   simp only [nextEvent, step, mkD, hsearch, List.take_zero, hd]
   rfl
 
@@ -592,21 +600,17 @@ theorem headerOk_cd {n : Str} {f : Option Str} (hn : NoNlChars n)
 def decodedPart (p : Part) : Part :=
   { p with headers := cdHeader (nameOf p) p.filename :: p.headers }
 
-/-- the buffer after the CRLF that ends the last header line of part `p` -/
-def dataOf (bnd ep : Bytes) (p : Part) (ps : List Part) : Bytes :=
-  (if p.payload.isEmpty then [] else 13 :: 10 :: p.payload) ++ encBody bnd ep ps
-
 theorem afterOf_cons (bnd : Bytes) (p : Part) (ps : List Part) :
-    afterOf bnd ep (p :: ps) = hdrBlock (nameOf p) p ++ 13 :: 10 :: dataOf bnd ep p ps := rfl
+    afterOf nl bnd ep (p :: ps) = hdrBlock nl (nameOf p) p ++ (nl.bytes ++ dataOf nl bnd ep p ps) := rfl
 
 theorem dataOf_blank (bnd : Bytes) (p : Part) (ps : List Part) :
-    ∃ Z, dataOf bnd ep p ps = 13 :: 10 :: Z := by
-  unfold dataOf
+    ∃ Z, dataOf nl bnd ep p ps = nl.bytes ++ Z := by
+  unfold dataOf framedNl
   cases hp : p.payload.isEmpty with
   | true => simp only [if_true, List.nil_append]; rw [encBody_eq]; exact ⟨_, rfl⟩
-  | false => exact ⟨p.payload ++ encBody bnd ep ps, by simp⟩
+  | false => exact ⟨p.payload ++ encBody nl bnd ep ps, by simp⟩
 
-theorem allHeadersOk {bnd : Bytes} {p : Part} (hv : ValidPart bnd p) :
+theorem allHeadersOk {bnd : Bytes} {p : Part} (hv : ValidPart nl bnd p) :
     ∀ kv ∈ cdHeader (nameOf p) p.filename :: p.headers, HeaderOk kv := by
   have hf := validPart_facts hv
   intro kv hkv
@@ -626,9 +630,9 @@ theorem lookup_filename (n : Str) (f : Option Str) :
   | some x => simp [FormOptions.lookup, FormOptions.kName, FormOptions.kFilename, FormOptions.filenameOpt]
 
 /-- PART: the header block is found, parsed, and the Field / File event carries the right names -/
-theorem step_part {bnd : Bytes} (p : Part) (ps : List Part) (k : Nat) (hv : ValidPart bnd p) :
-    nextEvent (mkD bnd (afterOf bnd ep (p :: ps)) .part k) =
-      .ok (partHeadEvent (decodedPart p), mkD bnd (dataOf bnd ep p ps) .dataStart (k + 1)) := by
+theorem step_part {bnd : Bytes} (p : Part) (ps : List Part) (k : Nat) (hv : ValidPart nl bnd p) :
+    nextEvent (mkD bnd (afterOf nl bnd ep (p :: ps)) .part k) =
+      .ok (partHeadEvent (decodedPart p), mkD bnd (dataOf nl bnd ep p ps) .dataStart (k + 1)) := by
   have hf := validPart_facts hv
   have hok := allHeadersOk hv
   have hlines : ∀ l ∈ (cdHeader (nameOf p) p.filename :: p.headers).map lineOf, LineOk l := by
@@ -636,27 +640,27 @@ theorem step_part {bnd : Bytes} (p : Part) (ps : List Part) (k : Nat) (hv : Vali
     rcases List.mem_map.1 hl with ⟨kv, hkv, rfl⟩
     exact lineOk_of_headerOk (hok kv hkv)
   rcases dataOf_blank bnd p ps with ⟨Z, hZ⟩
-  have hblank : searchBlankFrom 0 (afterOf bnd ep (p :: ps)) =
-      some ((hdrBlock (nameOf p) p).length, (hdrBlock (nameOf p) p).length + 4) := by
+  have hblank : searchBlankFrom 0 (afterOf nl bnd ep (p :: ps)) =
+      some ((hdrBlock nl (nameOf p) p).length, (hdrBlock nl (nameOf p) p).length + 2 * nl.len) := by
     rw [searchBlankFrom_eq_shift, afterOf_cons, hZ]
     simp only [List.drop_zero, hdrBlock]
-    rw [searchBlank_block _ Z (by simp) hlines]
+    rw [searchBlank_block nl _ Z (by simp) hlines]
     simp [shift2]
-  have htake : (afterOf bnd ep (p :: ps)).take (hdrBlock (nameOf p) p).length = hdrBlock (nameOf p) p := by
+  have htake : (afterOf nl bnd ep (p :: ps)).take (hdrBlock nl (nameOf p) p).length = hdrBlock nl (nameOf p) p := by
     rw [afterOf_cons]; simp
-  have hdrop : (afterOf bnd ep (p :: ps)).drop
-      (((hdrBlock (nameOf p) p).length + ((hdrBlock (nameOf p) p).length + 4)) / 2) = dataOf bnd ep p ps := by
-    have : ((hdrBlock (nameOf p) p).length + ((hdrBlock (nameOf p) p).length + 4)) / 2 =
-        2 + (hdrBlock (nameOf p) p).length := by omega
+  have hdrop : (afterOf nl bnd ep (p :: ps)).drop
+      (((hdrBlock nl (nameOf p) p).length + ((hdrBlock nl (nameOf p) p).length + 2 * nl.len)) / 2) = dataOf nl bnd ep p ps := by
+    have : ((hdrBlock nl (nameOf p) p).length + ((hdrBlock nl (nameOf p) p).length + 2 * nl.len)) / 2 =
+        nl.len + (hdrBlock nl (nameOf p) p).length := by omega
     rw [this, afterOf_cons, drop_add_append]
-    rfl
-  have hparse : parseHeaders (hdrBlock (nameOf p) p) = .ok (cdHeader (nameOf p) p.filename :: p.headers) :=
-    parseHeaders_block _ hok
+    simp [Nl.len]
+  have hparse : parseHeaders (hdrBlock nl (nameOf p) p) = .ok (cdHeader (nameOf p) p.filename :: p.headers) :=
+    parseHeaders_block nl _ hok
   have hopt := FormOptions.parseOptions_disposition_lemma (nameOf p) p.filename hf.1
     (fun x hx => (hf.2.2.1 x hx).1)
   have hnm := validPart_name hv
-  have hstep : step (mkD bnd (afterOf bnd ep (p :: ps)) .part k) =
-      .ok (partHeadEvent (decodedPart p), mkD bnd (dataOf bnd ep p ps) .dataStart (k + 1)) := by
+  have hstep : step (mkD bnd (afterOf nl bnd ep (p :: ps)) .part k) =
+      .ok (partHeadEvent (decodedPart p), mkD bnd (dataOf nl bnd ep p ps) .dataStart (k + 1)) := by
     unfold step
     simp only [mkD]
     rw [hblank]
@@ -677,30 +681,46 @@ theorem step_part {bnd : Bytes} (p : Part) (ps : List Part) (k : Nat) (hv : Vali
   | none => simp [partHeadEvent, decodedPart, hfn, mkD]
   | some x => simp [partHeadEvent, decodedPart, hfn, mkD]
 
+/-- reference semantics of the data stretch of part `p` -/
+theorem dataSpec_dataOf {bnd : Bytes} (hb : BoundaryOk bnd) (p : Part) (ps : List Part)
+    (hv : ValidPart nl bnd p) :
+    dataSpec bnd true (dataOf nl bnd ep p ps) = some (p.payload, ps.isEmpty, afterOf nl bnd ep ps) := by
+  have hf := validPart_facts hv
+  unfold dataOf framedNl
+  rw [encBody_eq]
+  cases hp : p.payload with
+  | nil =>
+    simp only [List.isEmpty_nil, if_true, List.nil_append]
+    exact dataSpec_encoded_empty_nl (bnd := bnd) _ (afterDelim_tailOf bnd ps)
+  | cons a t =>
+    simp only [List.isEmpty_cons, Bool.false_eq_true, if_false]
+    exact dataSpec_encoded_nl hb (a :: t) (tailOf nl bnd ep ps) (by rw [← hp]; exact hf.2.2.2.2.2)
+      (afterDelim_tailOf bnd ps)
+
+/-- the data stretch starts with exactly the line break -/
+theorem lbLen_dataOf {bnd : Bytes} (p : Part) (ps : List Part) (hv : ValidPart nl bnd p) :
+    lbLen (dataOf nl bnd ep p ps) = nl.len := by
+  have hf := validPart_facts hv
+  unfold dataOf framedNl
+  rw [encBody_eq]
+  cases hp : p.payload.isEmpty with
+  | true => simp only [if_true, List.nil_append]; exact nl.lbLen_delim bnd _
+  | false =>
+    simp only [Bool.false_eq_true, if_false]
+    exact Nl.lbLen_data _ _ hf.2.2.2.2.2.2
+
 /-- DATA_START: the payload and the delimiter that ends it -/
 theorem step_dataStart {bnd : Bytes} (hb : BoundaryOk bnd) (p : Part) (ps : List Part) (k : Nat)
-    (hv : ValidPart bnd p) :
-    nextEvent (mkD bnd (dataOf bnd ep p ps) .dataStart k) =
-      .ok (.data p.payload false, mkD bnd (afterOf bnd ep ps) (afterDelim ps.isEmpty) k) := by
+    (hv : ValidPart nl bnd p) :
+    nextEvent (mkD bnd (dataOf nl bnd ep p ps) .dataStart k) =
+      .ok (.data p.payload false, mkD bnd (afterOf nl bnd ep ps) (afterDelim ps.isEmpty) k) := by
   have hf := validPart_facts hv
   -- reference semantics of this stretch of the stream
-  have hspec : dataSpec bnd true (dataOf bnd ep p ps) = some (p.payload, ps.isEmpty, afterOf bnd ep ps) := by
-    unfold dataOf
-    rw [encBody_eq]
-    cases hp : p.payload with
-    | nil =>
-      simp only [List.isEmpty_nil, if_true, List.nil_append]
-      exact dataSpec_encoded_empty (bnd := bnd) _ (afterDelim_tailOf bnd ps)
-    | cons a t =>
-      simp only [List.isEmpty_cons, Bool.false_eq_true, if_false]
-      have := dataSpec_encoded hb (a :: t) (tailOf bnd ep ps) (by rw [← hp]; exact hf.2.2.2.2.2)
-        (afterDelim_tailOf bnd ps)
-      simpa using this
-  have hlb : lbLen (dataOf bnd ep p ps) = 2 := by
-    rcases dataOf_blank bnd p ps with ⟨Z, hZ⟩
-    rw [hZ]; exact lbLen_crlf _
+  have hspec := dataSpec_dataOf (nl := nl) (ep := ep) hb p ps hv
+  have hlb := lbLen_dataOf (nl := nl) (ep := ep) p ps hv
+  have hlp := nl.len_pos
   rw [dataSpec_true] at hspec
-  cases hs : searchDelim bnd false (dataOf bnd ep p ps) with
+  cases hs : searchDelim bnd false (dataOf nl bnd ep p ps) with
   | none => rw [hs] at hspec; simp at hspec
   | some v =>
     rcases v with ⟨s, e, f⟩
@@ -710,12 +730,12 @@ theorem step_dataStart {bnd : Bytes} (hb : BoundaryOk bnd) (p : Part) (ps : List
     have hbd := searchDelim_bounds hs
     have he0 : e ≠ 0 := by omega
     have hcut := dataCut_of_search hs
-    have hds : dataStep bnd true (dataOf bnd ep p ps) = .ok (p.payload, afterOf bnd ep ps, false, some ps.isEmpty) := by
+    have hds : dataStep bnd true (dataOf nl bnd ep p ps) = .ok (p.payload, afterOf nl bnd ep ps, false, some ps.isEmpty) := by
       rw [dataStep_true (by omega), hcut]
       simp only [he0, if_false]
       rw [hpay, hrest, hfe]
-    have hstep : step (mkD bnd (dataOf bnd ep p ps) .dataStart k) =
-        .ok (.data p.payload false, mkD bnd (afterOf bnd ep ps) (afterDelim ps.isEmpty) k) := by
+    have hstep : step (mkD bnd (dataOf nl bnd ep p ps) .dataStart k) =
+        .ok (.data p.payload false, mkD bnd (afterOf nl bnd ep ps) (afterDelim ps.isEmpty) k) := by
       unfold step
       simp only [mkD, stepData, hds]
       simp
@@ -744,9 +764,9 @@ theorem drain_head {d d' : Decoder} {q : Part} (fuel : Nat) (acc : List Event)
   | some f => rw [hq] at h; simp [drain, h]
 
 theorem drain_parts {bnd : Bytes} (hb : BoundaryOk bnd) (ps : List Part) :
-    ∀ (fuel : Nat) (acc : List Event) (k : Nat), (∀ p ∈ ps, ValidPart bnd p) →
+    ∀ (fuel : Nat) (acc : List Event) (k : Nat), (∀ p ∈ ps, ValidPart nl bnd p) →
       2 * ps.length + 1 ≤ fuel →
-      drain fuel (mkD bnd (afterOf bnd ep ps) (afterDelim ps.isEmpty) k) acc =
+      drain fuel (mkD bnd (afterOf nl bnd ep ps) (afterDelim ps.isEmpty) k) acc =
         { events := acc.reverse ++ ps.flatMap (fun p => partEvents (decodedPart p)),
           err := none,
           dec := mkD bnd (epiOf ep) .epilogue (k + ps.length) } := by
@@ -764,17 +784,19 @@ theorem drain_parts {bnd : Bytes} (hb : BoundaryOk bnd) (ps : List Part) :
     have hvp := hv p (by simp)
     match fuel, hf with
     | fuel + 2, hf =>
-      have h1 := step_part (ep := ep) p ps k hvp
-      have h2 := step_dataStart (ep := ep) hb p ps (k + 1) hvp
+      have h1 := step_part (nl := nl) (ep := ep) p ps k hvp
+      have h2 := step_dataStart (nl := nl) (ep := ep) hb p ps (k + 1) hvp
       have e : afterDelim (p :: ps).isEmpty = .part := rfl
       rw [e, drain_head _ _ h1, drain_data _ _ h2,
         ih fuel _ (k + 1) (fun q hq => hv q (by simp [hq])) (by simp at hf; omega)]
       simp [partEvents, decodedPart, Nat.add_assoc, Nat.add_comm 1]
 
-theorem encBody_length (bnd : Bytes) (ps : List Part) : 2 * ps.length + 2 ≤ (encBody bnd ep ps).length := by
+theorem encBody_length (bnd : Bytes) (ps : List Part) : 2 * ps.length + 2 ≤ (encBody nl bnd ep ps).length := by
   induction ps with
-  | nil => simp [encBody, closing]
-  | cons p ps ih => simp [encBody, encPart] at ih ⊢; omega
+  | nil => simp [encBody, closing]; omega
+  | cons p ps ih =>
+    have := nl.len_pos
+    simp [encBody, encPart, Nl.len] at ih this ⊢; omega
 
 theorem partsGo_part (q : Part) (hq : q.isFile = q.filename.isSome) (cur : Option Part)
     (rest : List Event) :
@@ -809,7 +831,7 @@ theorem flatMap_decoded (ps : List Part) :
   | cons p ps ih => simp only [List.flatMap_cons, List.map_cons, ih]
 
 theorem partsGo_decoded {bnd : Bytes} (ps : List Part) (cur : Option Part) (x : Bytes)
-    (hv : ∀ p ∈ ps, ValidPart bnd p) :
+    (hv : ∀ p ∈ ps, ValidPart nl bnd p) :
     partsGo cur (ps.flatMap (fun p => partEvents (decodedPart p)) ++ [.epilogue x]) =
       cur.toList ++ ps.map decodedPart := by
   rw [flatMap_decoded]
@@ -820,24 +842,24 @@ theorem partsGo_decoded {bnd : Bytes} (ps : List Part) (cur : Option Part) (x : 
 
 /-- **decode ∘ encode = id (single shot).** -/
 theorem decode_encode_lemma {bnd : Bytes} (hb : BoundaryOk bnd) (ps : List Part)
-    (hv : ∀ p ∈ ps, ValidPart bnd p) :
-    (decodeChunks bnd none none [encBody bnd ep ps]).err = none ∧
-    partsOf (decodeChunks bnd none none [encBody bnd ep ps]).events = ps.map decodedPart := by
+    (hv : ∀ p ∈ ps, ValidPart nl bnd p) :
+    (decodeChunks bnd none none [encBody nl bnd ep ps]).err = none ∧
+    partsOf (decodeChunks bnd none none [encBody nl bnd ep ps]).events = ps.map decodedPart := by
   -- first chunk: the whole body
-  have hrecv : receive (mkDecoder bnd none none) (some (encBody bnd ep ps)) =
-      .ok (mkD bnd (encBody bnd ep ps) .preamble 0) := by
+  have hrecv : receive (mkDecoder bnd none none) (some (encBody nl bnd ep ps)) =
+      .ok (mkD bnd (encBody nl bnd ep ps) .preamble 0) := by
     simp [receive, mkDecoder, mkD]
-  have hlen := encBody_length (ep := ep) bnd ps
-  have hfeed1 : feed (mkDecoder bnd none none) (some (encBody bnd ep ps)) =
+  have hlen := encBody_length (nl := nl) (ep := ep) bnd ps
+  have hfeed1 : feed (mkDecoder bnd none none) (some (encBody nl bnd ep ps)) =
       { events := Event.preamble [] :: ps.flatMap (fun p => partEvents (decodedPart p)),
         err := none, dec := mkD bnd (epiOf ep) .epilogue (0 + ps.length) } := by
     unfold feed
     rw [hrecv]
     simp only [drainFuel, mkD]
-    have : (encBody bnd ep ps).length + 3 = ((encBody bnd ep ps).length + 2) + 1 := by omega
+    have : (encBody nl bnd ep ps).length + 3 = ((encBody nl bnd ep ps).length + 2) + 1 := by omega
     rw [this]
-    have hp := step_preamble (ep := ep) bnd ps 0
-    have hdp := drain_parts (ep := ep) hb ps ((encBody bnd ep ps).length + 2) [Event.preamble []] 0 hv (by omega)
+    have hp := step_preamble (nl := nl) (ep := ep) bnd ps 0
+    have hdp := drain_parts (nl := nl) (ep := ep) hb ps ((encBody nl bnd ep ps).length + 2) [Event.preamble []] 0 hv (by omega)
     simp only [mkD] at hp hdp
     rw [drain_pre _ _ hp, hdp]
     simp
@@ -845,7 +867,7 @@ theorem decode_encode_lemma {bnd : Bytes} (hb : BoundaryOk bnd) (ps : List Part)
       { events := [Event.epilogue (epiOf ep)], err := none,
         dec := { mkD bnd [] .epilogue (0 + ps.length) with complete := true, state := .complete } } := by
     simp [feed, receive, mkD, drainFuel, drain, nextEvent, step]
-  have hrun : decodeChunks bnd none none [encBody bnd ep ps] =
+  have hrun : decodeChunks bnd none none [encBody nl bnd ep ps] =
       { events := Event.preamble [] :: (ps.flatMap (fun p => partEvents (decodedPart p)) ++ [Event.epilogue (epiOf ep)]),
         err := none,
         dec := { mkD bnd [] .epilogue (0 + ps.length) with complete := true, state := .complete } } := by
